@@ -445,9 +445,14 @@ const (
 // c18Walk opens and walks the image; returns the number of files read, whether an error surfaced and the
 // costliest single call. Every library call is timed on its own: the statement bounds each of them, whereas
 // the number of calls a walk makes is the walker's own choice.
-func c18Walk(bi *builtImage, img *simdisk.Disk, limit int64) (files int, sawErr bool, worst c18Call) {
+func c18Walk(bi *builtImage, img *simdisk.Disk, limit int64, walkReads int64) (files int, sawErr bool, worst c18Call) {
+	// device reads one library call may issue: four passes over the image in 512-byte pieces plus 20000 (a legitimate
+	// call reads one file or resolves one path); a read loop that does not end exceeds it at once. SimDisk raises
+	// ErrReadBudget when the count is passed.
+	perCall := img.Size()/512*4 + 20000
 	timed := func(what string, f func()) {
 		t0 := core.CPUSeconds()
+		img.ReadBudget = img.St.Reads + perCall
 		f()
 		if el := core.CPUSeconds() - t0; el > worst.Sec {
 			worst.What, worst.Sec = what, el
@@ -462,7 +467,7 @@ func c18Walk(bi *builtImage, img *simdisk.Disk, limit int64) (files int, sawErr 
 	var walk func(dir string, depth int)
 	seen := 0
 	spent := func() bool {
-		if img.St.BytesRead > c18WalkBytes*img.Size() {
+		if img.St.BytesRead > c18WalkBytes*img.Size() || (walkReads > 0 && img.St.Reads > walkReads) {
 			worst.Truncated = true
 			return true
 		}
@@ -579,7 +584,7 @@ func (p c18) Exec(t *core.Trace) *core.Result {
 	// fault-free baseline
 	baseImg := base.Clone()
 	baseImg.St = simdisk.Stats{}
-	nfiles, _, _ := c18Walk(bi, baseImg, 64*imgSize)
+	nfiles, _, _ := c18Walk(bi, baseImg, 64*imgSize, 0)
 	baseReads := baseImg.St.Reads
 	budget := baseReads * 1000
 	if budget < 20000 {
@@ -596,15 +601,15 @@ func (p c18) Exec(t *core.Trace) *core.Result {
 		res.Hashes = append(res.Hashes, core.Mix(core.HashStr(kind), core.HashStr(fmt.Sprint(ops))))
 		img.St = simdisk.Stats{}
 		img.MaxReadAllowed = 64*imgSize + 1<<20
-		img.ReadBudget = budget
+		img.ReadBudget = 0 // set per library call by the walker; the walk as a whole stops descending after `budget` reads
 		trig := fam + ":" + faultClass(ops)
 		var sawErr bool
 		var worst c18Call
-		pk, pv, loc, st := core.Guard(func() { _, sawErr, worst = c18Walk(bi, img, 64*imgSize) })
+		pk, pv, loc, st := core.Guard(func() { _, sawErr, worst = c18Walk(bi, img, 64*imgSize, budget) })
 		res.DevOps += img.St.Reads
 		if pk {
 			if pv == simdisk.ErrReadBudget {
-				return &core.Violation{Clause: "C18.read-budget", Trigger: trig, Locus: loc, Detail: fmt.Sprintf("walk issued more than %d device reads (fault-free walk: %d)\nfaults: %v", budget, baseReads, ops)}
+				return &core.Violation{Clause: "C18.read-budget", Trigger: trig, Locus: loc, Detail: fmt.Sprintf("a single library call issued more than %d device reads on a %d-byte image (whole fault-free walk: %d)\nfaults: %v", imgSize/512*4+20000, imgSize, baseReads, ops)}
 			}
 			return &core.Violation{Clause: "C18.panic", Trigger: trig + ":" + core.PanicClass(pv), Locus: loc, Detail: fmt.Sprintf("panic: %v\nfaults: %v\n%s", pv, ops, firstLinesOf(st, 14))}
 		}
